@@ -69,10 +69,158 @@ def C02(ctx):
         ctx.run(big, nontrivial=nt, runtime=True, switches=W_ONLY)
 
 
+# ------------------------------------------------------------------ C03 / C04
+def only_success(cases):
+    out = []
+    for c in cases:
+        c = json.loads(json.dumps(c))
+        for e in c['expect']:
+            if e.get('scheds'):
+                e['scheds'] = [["", ""]]
+        out.append(c)
+    return out
+
+
+def n_fault_points(c):
+    return sum(1 for s in c['expect'][0].get('scheds', []) if len(s) == 1)
+
+
+def C03(ctx):
+    ctx.rules.append('family R: every DAG shape of n providers x every flavour assignment {plain,error,cleanup,cleanup+error}^n x injector declaring '
+                     'cleanup+error or the minimum; schedules exported by TLC: two clean calls, every single failure point, fail/ok/fail and ok/fail/ok; '
+                     'non-trivial = at least one failure point with a cleanup acquired before it; '
+                     'judge: WireInjectTrace with CheckE+CheckC (no call after the failure, reverse unwinding exactly once, own cleanup not called, zero value, nil cleanup, that very error, no state leaks into the next call)')
+    nt = lambda c: any(l['er'] for l in c['prog']['leaves']) and any(l['cl'] for l in c['prog']['leaves'])
+    cases = []
+    for n in (1, 2, 3):
+        cases += ctx.export('FamilyR(p, %d)' % n)
+    ctx.res.cov['exhaustive'] = True
+    ctx.res.cov['fault_points'] = sum(n_fault_points(c) for c in cases)
+    ctx.run(cases, nontrivial=nt, runtime=True, switches=E_C)
+    big = ctx.export('FamilyR(p, 4)', pre_sample=300 if ctx.quick else None)
+    ctx.res.cov['fault_points'] += sum(n_fault_points(c) for c in big)
+    ctx.run(big, nontrivial=nt, runtime=True, switches=E_C)
+    if not ctx.quick:
+        b5 = ctx.export('FamilyR(p, 5)', pre_sample=1500)
+        ctx.res.cov['fault_points'] += sum(n_fault_points(c) for c in b5)
+        ctx.run(b5, nontrivial=nt, runtime=True, switches=E_C)
+
+
+def C04(ctx):
+    ctx.rules.append('family R (as C03) on success schedules only; non-trivial = at least two cleanup-returning providers; '
+                     'judge: WireInjectTrace with CheckC (no cleanup before the caller invokes, non-nil aggregate even when empty, reverse acquisition order, each exactly once)')
+    nt = lambda c: sum(1 for l in c['prog']['leaves'] if l['cl']) >= 2
+    cases = []
+    for n in (1, 2, 3):
+        cases += ctx.export('FamilyR(p, %d)' % n)
+    ctx.res.cov['exhaustive'] = True
+    ctx.run(only_success(cases), nontrivial=nt, runtime=True, switches=(False, False, True))
+    big = ctx.export('FamilyR(p, 4)', pre_sample=500 if ctx.quick else None)
+    ctx.run(only_success(big), nontrivial=nt, runtime=True, switches=(False, False, True))
+    if not ctx.quick:
+        ctx.run(only_success(ctx.export('FamilyR(p, 5)', pre_sample=3000)), nontrivial=nt, runtime=True, switches=(False, False, True))
+
+
+# ------------------------------------------------------------------ C05
+def C05(ctx):
+    ctx.rules.append('family K: for each colliding type (named, pointer, struct, pointer to struct, interface, unnamed slice) every pair of source kinds that can provide it '
+                     '(function, struct provider value/pointer form, value, interface value, binding, field value/pointer form, injector parameter, same set twice) '
+                     'x placement (same call, nested vs direct, sibling sets, inside one set, two levels deep, other package) x colliding type needed / not needed; '
+                     'every case is non-trivial (WireSem: Ambiguous); judge: rejected, no output, a multiple-bindings diagnostic naming the colliding type; check agrees')
+    cases = ctx.export('FamilyK(p, KTypes)')
+    bad = [c for c in cases if 'ambiguous' not in reasons(c)]
+    if bad:
+        raise Broken('family K contains a case WireSem does not find ambiguous: ' + bad[0]['key'])
+    ctx.res.cov['exhaustive'] = not ctx.quick
+    if ctx.quick:
+        cases = ctx.sample(cases, 700)
+    ctx.run(cases, runtime=False, check=True)
+
+
+# ------------------------------------------------------------------ C08
+def C08(ctx):
+    ctx.rules.append('family U: accepted bases (chain, injector returning its own argument, argument through a binding, used binding) x one superfluous direct item of each kind '
+                     '(function, struct provider, value, interface value, second binding to the same concrete type, fields, set, set in another package, empty set) '
+                     'and programs whose direct items are used only indirectly (two levels down, pointer form only, value form only, pointer-to-field only, binding only, one member of a set); '
+                     'plus every program of family G passed directly; non-trivial = WireSem: UnusedDirect # {} or an indirectly used item; '
+                     'judge: unused => rejected with an unused diagnostic and no output; contributing => accepted; partially used FieldsOf lists are free')
+    nt = lambda c: 'unused' in reasons(c) or c['key'].startswith('U/indirect')
+    ctx.run(ctx.export('FamilyU(p)'), nontrivial=nt, runtime=True, switches=W_ONLY)
+    g = [c for c in ctx.export(G(3, 'all', ('dir',))) if 'unused' in reasons(c) or verdict(c) == 'yes']
+    if ctx.quick:
+        g = ctx.sample(g, 400)
+    ctx.run(g, nontrivial=nt, runtime=False)
+    if not ctx.quick:
+        g4 = [c for c in ctx.export(G(4, 'all', ('dir',)), pre_sample=15000) if 'unused' in reasons(c)]
+        ctx.run(g4, nontrivial=nt, runtime=False)
+
+
+# ------------------------------------------------------------------ C09
+def C09(ctx):
+    ctx.rules.append('family Q: every result list of length 0..3 (quick) / 0..4 (thorough) over {value, error, func(), named func type, other func type, alias of error, error-like interface} '
+                     'as provider signature (direct / nested / other package / unused corner of a set) and as injector signature x providers needing none/error/cleanup/both; '
+                     'identical parameter and field types; non-trivial = every case (distinct shape x placement); '
+                     'judge: illegal => rejected with a diagnostic, legal => accepted and the package builds')
+    cases = ctx.export('FamilyQ(p, %d)' % (3 if ctx.quick else 4))
+    ctx.res.cov['exhaustive'] = True
+    ctx.run(cases, runtime=False, check=False)
+
+
+# ------------------------------------------------------------------ C10
+def C10(ctx):
+    ctx.rules.append('family M: three well-formed bases (plain chain; binding + struct provider; fields of a pointer + value) x every assignment of the leaves to '
+                     '{direct, SetA, SetB, SetC nested in SetA} keeping a binding with the provider of its concrete type x {SetB, SetC in the injector package or another} x argument order {as is, reversed, rotated}; '
+                     'non-trivial = a variant that uses at least one set; judge: every variant accepted, its injector executed and validated with CheckW against the wiring WireSem assigns, '
+                     'and WireSem assigns the same wiring to all variants of a base (checked on the exported expectations)')
+    cases = ctx.export('FamilyM(p, {1, 2, 3})', pre_sample=600 if ctx.quick else 6000)
+    for c in cases:
+        if verdict(c) != 'yes':
+            raise Broken('WireSem rejects a regrouping of a well-formed program: ' + c['key'])
+    byb = {}
+    for c in cases:
+        b = c['key'].split('/')[1]
+        w = json.dumps(c['expect'][0]['wiring'], sort_keys=True)
+        if byb.setdefault(b, w) != w:
+            raise Broken('WireSem wiring differs between regroupings of base ' + b)
+    ctx.run(cases, nontrivial=lambda c: c['prog']['sets'] != [], runtime=True, switches=W_ONLY)
+
+
+# ------------------------------------------------------------------ C11
+def C11(ctx):
+    ctx.rules.append('family B: receiver {value, pointer} x bound form {C, *C} x interface {plain, embedding another, from another package} x how the bound type is provided '
+                     '{function, struct provider, value, injector parameter, field} x consumers of I {1,2} x consumers of the bound type {0,1} x position of the binding '
+                     '{next to the provider, both in an inner set, inner set lacking the provider, provider in an inner set}; near misses: no binding, self binding, non-implementing type; '
+                     'all of it enumerated (exhaustive for the family); non-trivial = every case; judge: accept iff implements, not self, co-located; accepted => all consumers of I and of the bound type observe one value (WireInjectTrace CheckW)')
+    cases = ctx.export('FamilyB(p)')
+    ctx.res.cov['exhaustive'] = not ctx.quick
+    if ctx.quick:
+        cases = ctx.sample(cases, 450)
+    ctx.run(cases, runtime=True, switches=W_ONLY)
+
+
+# ------------------------------------------------------------------ C12
+def C12(ctx):
+    ctx.rules.append('family S: struct {A T1; B *T2; c T3; D T4 prevented (4 tag spellings); a T5}: wire.Struct with every listed selection incl. "*", "*"+name, unknown, prevented, wrong-case and case-twin names, '
+                     'asked for as S1 and *S1; wire.FieldsOf over S1 / *S1 provided by function / parameter / struct provider for subsets of {A,B,c} consumed by value or as pointer into the struct; '
+                     'non-trivial = every case; judge: rejected iff a name is unknown/prevented (exact match); at run time exactly the selected fields carry the value of the source of their type, '
+                     'all others zero; F is the field of the provided struct and *F aliases it (pointer ordinals)')
+    cases = ctx.export('FamilyS(p)')
+    ctx.res.cov['exhaustive'] = True
+    ctx.run(cases, runtime=True, switches=W_ONLY)
+
+
 PROPS = {
     'C02': dict(fn=C02, level='model_checking'),
+    'C03': dict(fn=C03, level='model_checking'),
+    'C04': dict(fn=C04, level='model_checking'),
+    'C05': dict(fn=C05, level='model_checking'),
     'C06': dict(fn=C06, level='model_checking'),
     'C07': dict(fn=C07, level='model_checking'),
+    'C08': dict(fn=C08, level='model_checking'),
+    'C09': dict(fn=C09, level='model_checking'),
+    'C10': dict(fn=C10, level='model_checking'),
+    'C11': dict(fn=C11, level='model_checking'),
+    'C12': dict(fn=C12, level='model_checking'),
 }
 
 
